@@ -103,6 +103,9 @@ def meta_for(sc, cfg):
     c = {k: cfg[k] for k in ('R', 'S', 'RQ', 'SQ', 'IOQ', 'io_chunk',
                              'attempts', 'up_chunks', 'down_chunks', 'chunk',
                              'threshold')}
+    # the part-size limits in force (scaled ChunksizeAdjuster of the run)
+    lim = sc.get('adjuster') or [1, 1000000, 10000]
+    c.update(minp=lim[0], maxp=lim[1], maxn=lim[2])
     return {'cfg': c, 'xs': xs}
 
 
